@@ -419,11 +419,15 @@ func init() {
 			packageRange(c)
 			bufferRangeDiff(c)
 			consumerOffsets(c) // eviction is gated by COMMITTED offsets: a rolled-back window must still be in the buffer
+			defaultCleaner(c)  // ... and the default cleaner never evicts past the LOWEST committed offset, whatever the order of the offsets
 			out := c.sel(func(o *an.Oblig) bool {
 				if isUndecided(o) || o.Rule == "ANCHOR" {
 					return true
 				}
-				if ruleIn(o, "G", "AT", "P") && funcHas(o, "(*consumer).Commit", "(*consumer).Rollback", "(*consumer).Get", "(*Buffer).commit", "(*Buffer).Diff", "(*Buffer).consumerOffsets") {
+				if ruleIn(o, "G", "AT", "P", "REQ") && funcHas(o, "(*consumer).Commit", "(*consumer).Rollback", "(*consumer).Get", "(*Buffer).commit", "(*Buffer).Diff", "(*Buffer).consumerOffsets") {
+					return true
+				}
+				if o.Rule == "REQ" && subjHas(o, "Diff reads") {
 					return true
 				}
 				if o.Rule == "O" && subjHas(o, "consumer.mutex->Buffer.mutex") {
@@ -441,6 +445,7 @@ func init() {
 			floorRule("COND", "COND", 4),
 			floorKey("lock order consumer->buffer", 1, "O/", "consumer.mutex->Buffer.mutex"),
 			floorKey("AT consumer.Commit", 2, "AT/(*consumer).Commit/"),
+			floorKey("Diff snapshot under both locks", 4, "REQ/", "Diff reads"),
 		},
 	})
 }
